@@ -343,6 +343,68 @@ func C04(r *core.Run) {
 			}
 		}
 	})
+	// word sets (2-4 of 8 words with shared beginnings and endings) in a block between two concatenation markers:
+	// text before + every word (with the evasion text) + text after must be matched
+	sets, d5 := core.Parallel(r, "sets", in{dir, 0}, r.Workers, func(in in, shard, n int, emit func(bigRes)) {
+		roots := mkRoots(filepath.Join(in.Dir, fmt.Sprint("s", shard)))
+		pool := []string{"curl", "perl", "wget", "who", "cat", "cut", "nc", "ncat"}
+		dummy := ref.CmdCfg{UnixEvasion: "_av-u_", WindowsEvasion: "_av-w_"}
+		idx := 0
+		for mask := 1; mask < 1<<len(pool); mask++ {
+			var ws []string
+			for i, w := range pool {
+				if mask&(1<<i) != 0 {
+					ws = append(ws, w)
+				}
+			}
+			if len(ws) < 2 || len(ws) > 4 {
+				continue
+			}
+			for _, shell := range []string{"unix", "windows"} {
+				for _, tpl := range []string{"sudo:\n##!=>\n%s##!=>\n;\n", "##!> assemble\nsu\ndo\n##!=>\n%s##!<\n", "%s##!=>\nx\ny\n"} {
+					if idx++; idx%n != shard {
+						continue
+					}
+					prog := fmt.Sprintf(tpl, "##!> cmdline "+shell+"\n"+strings.Join(ws, "\n")+"\n##!<\n")
+					o := inproc.GenerateFresh(roots["dummy-literals"], prog)
+					res := bigRes{N: len(ws), Shell: shell}
+					if o.Kind != inproc.OK {
+						res.Err = prog + ": " + o.Kind + " " + tailStr(o.Msg, 200)
+						emit(res)
+						continue
+					}
+					re, err := regexp.Compile(`\A(?:` + o.Out + `)\z`)
+					if err != nil {
+						res.Err = prog + ": output does not compile: " + err.Error()
+						emit(res)
+						continue
+					}
+					pre, post := []string{"sudo:"}, []string{";"}
+					switch {
+					case strings.HasPrefix(tpl, "##!> assemble"):
+						pre, post = []string{"su", "do"}, []string{""}
+					case strings.HasPrefix(tpl, "%s"):
+						pre, post = []string{""}, []string{"x", "y"}
+					}
+					for _, w := range ws {
+						for _, a := range pre {
+							for _, b := range post {
+								if !re.MatchString(a + ref.Cmd(w, shell == "windows", dummy) + b) {
+									res.Missed = append(res.Missed, a+w+b)
+								}
+							}
+						}
+					}
+					if len(res.Missed) > 0 {
+						res.Err = fmt.Sprintf("program %q generates %q", prog, o.Out)
+					}
+					emit(res)
+				}
+			}
+		}
+	})
+	deaths = append(deaths, d5...)
+	bigs = append(bigs, sets...)
 	deaths = append(deaths, d3...)
 	if r.IsWorker() {
 		return
